@@ -24,7 +24,7 @@
     real_templates_okt real_filter_is_chain_of_rewrites real_template_rewrites_marked_elements
     marked_elements_are_xpath_matches real_positional_not_lawful real_positional_counts_per_closure
     once_on_trees stage_counts_matches late_registration_applies_from_there_on lazy_eq_eager_late
-    select_is_path_select
+    select_is_path_select real_once_on_trees
 -/
 import Genshi.Lemmas.MatchSync
 import Genshi.Lemmas.MatchPipe
@@ -44,6 +44,7 @@ import Genshi.Lemmas.MatchRealSpec
 import Genshi.Lemmas.MatchOnceSpec
 import Genshi.Lemmas.MatchLate
 import Genshi.Lemmas.MatchSelect
+import Genshi.Lemmas.MatchRealOnce
 import Genshi.Props.C05
 namespace Genshi.Props.C12
 open Genshi Genshi.Match
@@ -730,5 +731,22 @@ theorem select_is_path_select (s : Sel) (es : List Event) (k : Nat) (hset : ∀ 
 
 example : (select .elems [S 'a', S 'b', E 'b', T 'u', E 'a']).map Path.Item.ev
     = Path.select (Sel.paths .elems) [] [] [S 'a', S 'b', E 'b', T 'u', E 'a'] := by decide +kernel
+
+
+open Genshi.Path in
+/-- **`once` on trees for real templates**: declarations without position tests, the declaration of slot
+    `i` without the hint; on a forest in which its real matcher fires at most once (`countList` of the
+    real template) the stage with `once="true"` set yields the tree rewrite of the unhinted template. -/
+theorem real_once_on_trees (ns : NsMap) (vs : Vars) (ds : List Decl) (hok : ∀ d ∈ ds, d.ok ns vs)
+    (i : Nat) (d : Decl) (hd : ds[i]? = some d) (ho : d.hints.matchOnce = false)
+    (f : Nat) (forest : List Node) (r : List (MT RSt) × List Event) (hns : okList forest = true)
+    (h : run f i (some (i + 1)) (evItems (flattenList forest)) (ds.map (Decl.real ns vs)) = some r)
+    (hfew : countList (d.real ns vs) (d.real ns vs).st [] forest ≤ 1) :
+    ∃ c', run f i (some (i + 1)) (evItems (flattenList forest)) ((ds.map (Decl.real ns vs)).set i (onceAt (d.real ns vs)))
+      = some (c', specList (d.real ns vs) (d.real ns vs).st [] forest) :=
+  real_once_stage_is_spec ns vs ds hok i d hd ho f forest r hns h hfew
+
+/-- non-vacuity: `a//c[@k]` fires once in `forestR` -/
+example : countList (dACk.real [] []) (dACk.real [] []).st [] forestR = 1 := by decide +kernel
 
 end Genshi.Props.C12
